@@ -520,7 +520,9 @@ where
     }
 
     fn output_delay(&self) -> usize {
-        (self.interpolator.len() as f64 * self.resample_ratio / 2.0) as usize
+        // The filter is centered on the read position by reading ahead in the chunk
+        // (which is why the first chunk gives fewer frames), so the output is aligned with the input.
+        0
     }
 
     fn nbr_channels(&self) -> usize {
@@ -883,7 +885,9 @@ where
     }
 
     fn output_delay(&self) -> usize {
-        (self.interpolator.len() as f64 * self.resample_ratio / 2.0) as usize
+        // The filter is centered on the read position by reading ahead in the chunk
+        // (which is why the first chunk gives fewer frames), so the output is aligned with the input.
+        0
     }
 
     fn set_resample_ratio(&mut self, new_ratio: f64, ramp: bool) -> ResampleResult<()> {
